@@ -14,7 +14,9 @@ import (
 var seriesAlphabet = []uint32{0, 65535, 65536, 65537, 131072}
 
 // slotRanges: metric-level slot range of one flushed block (disjoint, overlapping, nested, single slot).
-var slotRanges = [][2]uint16{{0, 2}, {1, 3}, {5, 5}, {0, 5}}
+// Index 4 (362 slots) is wider than the 360-slot stack block of aggregation.DownSamplingMultiSeriesInto (families of
+// the 1h interval hold up to 744 slots); it is only used by the "wide" family.
+var slotRanges = [][2]uint16{{0, 2}, {1, 3}, {5, 5}, {0, 5}, {3, 364}}
 
 type fieldDef struct {
 	ID   field.ID
@@ -206,7 +208,7 @@ func compare(want, got *content) *mismatch {
 			return &mismatch{"cell-disappeared", "metricsdata.MetricReader.Load", fmt.Sprintf("%s: contributed values %v, nothing readable", k, w)}
 		}
 		t := want.fields[fieldKey{k.metric, k.id()}]
-		switch t.AggType() {
+		switch aggOf(t) {
 		case field.Sum:
 			if sumOf(g) != sumOf(w) {
 				return &mismatch{"value-sum", "aggregation.DownSamplingMultiSeriesInto", fmt.Sprintf("%s type %s: contributed %v (sum %v), readable %v (sum %v)", k, t, w, sumOf(w), g, sumOf(g))}
@@ -236,6 +238,25 @@ func compare(want, got *content) *mismatch {
 }
 
 func (k cellKey) id() field.ID { return k.field }
+
+// aggOf is the reference's own mapping field type -> aggregation of the property statement (sum, min, max and
+// histogram: exact aggregate; first / last: one of the contributed values). It deliberately does not call
+// field.Type.AggType(): that function is part of the code under test.
+func aggOf(t field.Type) field.AggType {
+	switch t {
+	case field.SumField, field.HistogramField:
+		return field.Sum
+	case field.MinField:
+		return field.Min
+	case field.MaxField:
+		return field.Max
+	case field.LastField:
+		return field.Last
+	case field.FirstField:
+		return field.First
+	}
+	panic("reference: unknown field type")
+}
 
 func sumOf(vs []float64) (s float64) {
 	for _, v := range vs {
